@@ -1,5 +1,7 @@
 """C19 - Easter, Pesach, Moslem calendar (shape S: arithmetic calendars as
 successor machines / tabular definitions, every state replayed)."""
+import math
+
 from ..engine import Clause, chunks
 from ..ref import calendar as cal
 from ..ref import computus, hebrew, islamic
@@ -112,6 +114,17 @@ def run_pesach(block, ctx):
         ctx.nt_count += 1
         for msg in check_pesach(y):
             ctx.viol({"year": y, "gregorian": y >= 1583}, msg, site="pesach")
+        # the two feasts of one year asked for alternately (each right after the other, both orders)
+        try:
+            seq = [tuple(Epoch.easter(y)), tuple(Epoch.jewish_pesach(y)), tuple(Epoch.easter(y)),
+                   tuple(Epoch.jewish_pesach(y))]
+            exp_e, exp_p = computus.easter(y), fast().date(hebrew.pesach_n(y))[1:]
+            if seq != [exp_e, exp_p, exp_e, exp_p]:
+                ctx.viol({"year": y, "gregorian": y >= 1583}, "easter / jewish_pesach of year %d asked for alternately "
+                         "give %r, expected %r" % (y, seq, [exp_e, exp_p, exp_e, exp_p]), site="interleaved")
+        except Exception as ex:
+            ctx.viol({"year": y, "gregorian": y >= 1583}, "alternating easter / jewish_pesach raised %r" % ex,
+                     site="interleaved")
         ctx.outcome(fast().date(hebrew.pesach_n(y))[1:])
     ctx.traces += 1
     ctx.obs(block[0])
@@ -119,6 +132,19 @@ def run_pesach(block, ctx):
 
 
 # -- Moslem -> civil ---------------------------------------------------------
+
+_YSTART = {}
+
+
+def _moslem_n(h, m, d):
+    """Day number of the Moslem date (tabular calendar)."""
+    if not _YSTART:
+        _YSTART.update(dict(islamic.year_starts(1, 2501)))
+    n = _YSTART[h]
+    for mm in range(1, m):
+        n += islamic.mlen(h, mm)
+    return n + d - 1
+
 
 def check_m2g(h, m, d, n, prev_civil_n=None):
     out = []
@@ -131,6 +157,18 @@ def check_m2g(h, m, d, n, prev_civil_n=None):
     if g3 != exp or not all(float(v) == int(v) for v in g3):
         out.append(("m2g", "moslem2gregorian(%d,%d,%d) = %r, tabular calendar gives %r"
                     % (h, m, d, g3, exp)))
+    # the civil result handed straight back as if it were a Moslem date (it is one whenever the year is <= 2500
+    # and the day <= 29): a result remembered from the previous call must not answer this one
+    Y, M, D = exp
+    if 1 <= Y <= 2500 and D <= 29:
+        try:
+            fb = tuple(Epoch.moslem2gregorian(Y, M, D))
+            n_fb = _moslem_n(Y, M, D)
+            if fb != fast().date(n_fb):
+                out.append(("m2g_feedback", "moslem2gregorian(%d,%d,%d) right after moslem2gregorian(%d,%d,%d) = %r, "
+                            "tabular calendar gives %r" % (Y, M, D, h, m, d, fb, fast().date(n_fb))))
+        except Exception as ex:
+            out.append(("m2g_feedback", "moslem2gregorian(%d,%d,%d) raised %r" % (Y, M, D, ex)))
     try:
         back = tuple(Epoch.gregorian2moslem(*g3))
         if back != (h, m, d):
@@ -173,6 +211,15 @@ def check_g2m(n, hmd):
     if got != tuple(hmd):
         return ["gregorian2moslem(%d,%d,%d) = %r, tabular calendar gives %r"
                 % (y, mo, da, got, tuple(hmd))]
+    # the same civil day with a time of day: its last representable instant and 1e-10 day before midnight
+    for dd in (math.nextafter(da + 1.0, 0.0), da + 1.0 - 1e-10, da + 0.5):
+        try:
+            g2 = tuple(Epoch.gregorian2moslem(y, mo, dd))
+            if (g2[0], g2[1], int(g2[2])) != tuple(hmd):
+                return ["gregorian2moslem(%d,%d,%r) = %r, the civil day is %r in the tabular calendar"
+                        % (y, mo, dd, g2, tuple(hmd))]
+        except Exception as ex:
+            return ["gregorian2moslem(%d,%d,%r) raised %r" % (y, mo, dd, ex)]
     return []
 
 
